@@ -17,6 +17,8 @@ import (
 	"golang.org/x/tools/go/ssa/ssautil"
 )
 
+var noClone = os.Getenv("VERIF_NOCLONE") != ""
+
 var progress = os.Getenv("VERIF_PROGRESS") != ""
 
 const ModulePath = "github.com/couchbase/nitro"
@@ -118,14 +120,18 @@ type workQueue struct {
 	items   [][]Dec
 	active  int
 	stopped bool
+	n       int64
 }
 
 func (q *workQueue) push(t []Dec) {
 	q.mu.Lock()
 	q.items = append(q.items, t)
+	atomic.StoreInt64(&q.n, int64(len(q.items)))
 	q.mu.Unlock()
 	q.cond.Signal()
 }
+
+func (q *workQueue) length() int { return int(atomic.LoadInt64(&q.n)) }
 
 func (q *workQueue) pop() ([]Dec, bool) {
 	q.mu.Lock()
@@ -137,6 +143,7 @@ func (q *workQueue) pop() ([]Dec, bool) {
 		if n := len(q.items); n > 0 {
 			t := q.items[n-1] // LIFO: depth first keeps the frontier small
 			q.items = q.items[:n-1]
+			atomic.StoreInt64(&q.n, int64(len(q.items)))
 			q.active++
 			return t, true
 		}
@@ -146,6 +153,13 @@ func (q *workQueue) pop() ([]Dec, bool) {
 		}
 		q.cond.Wait()
 	}
+}
+
+// begin marks the calling worker active (it took work from its local stack).
+func (q *workQueue) begin() {
+	q.mu.Lock()
+	q.active++
+	q.mu.Unlock()
 }
 
 func (q *workQueue) done() {
@@ -239,13 +253,24 @@ func (p *Program) exploreOnce(entry *ssa.Function) (*Result, error) {
 				return
 			}
 			npaths := 0
+			wk := &worker{q: q, nworkers: cfg.Workers}
 			for {
-				prefix, ok := q.pop()
-				if !ok {
-					break
+				var st *State
+				if n := len(wk.local); n > 0 {
+					st = wk.local[n-1]
+					wk.local[n-1] = nil
+					wk.local = wk.local[:n-1]
+					q.begin()
+				} else {
+					prefix, ok := q.pop()
+					if !ok {
+						break
+					}
+					st = p.newState(base, prefix, q.push)
+					st.w = wk
 				}
 				npaths++
-				if npaths%2000 == 0 {
+				if npaths%4000 == 0 && len(wk.local) == 0 && !st.resumed {
 					// keep term tables and solver state small
 					sv.Close()
 					ctx = NewTermCtx()
@@ -265,8 +290,9 @@ func (p *Program) exploreOnce(entry *ssa.Function) (*Result, error) {
 						q.stop()
 						return
 					}
+					st = p.newState(base, st.prefix, q.push)
+					st.w = wk
 				}
-				st := p.newState(base, prefix, q.push)
 				ab := st.runPath(entry)
 				mu.Lock()
 				res.Paths++
@@ -426,10 +452,12 @@ func (st *State) runPath(entry *ssa.Function) (ab pathAbort) {
 			}
 		}
 	}()
-	main := &Thread{id: 0, name: "main", hits: map[string]int{}}
-	st.threads = []*Thread{main}
-	st.cur = main
-	st.pushFrame(main, entry, nil, nil, nil)
+	if !st.resumed {
+		main := &Thread{id: 0, name: "main", hits: map[string]int{}}
+		st.threads = []*Thread{main}
+		st.cur = main
+		st.pushFrame(main, entry, nil, nil, nil)
+	}
 	st.runLoop()
 	st.flushAsserts()
 	return pathAbort{abDone, ""}
